@@ -950,10 +950,9 @@ class Molecules:
                 shift_corrected
             )
         else:
-            shift_corrected = rotator.apply(shift)
-            return self.translate_internal(shift_corrected).rotate_by_rotvec_internal(
-                rotvec
-            )
+            # The shift is measured along the axes of the molecule (the subvolume is
+            # rotated about its center, then shifted), so it must not be rotated.
+            return self.translate_internal(shift).rotate_by_rotvec_internal(rotvec)
 
     def concat_with(
         self,
